@@ -2082,8 +2082,44 @@ class Walker:
                 env[n] = ("phi", li.lid, n)
         li.last_seq = self._seq
         if s.orelse:
-            self.block(s.orelse, env)
+            self._loop_else(s, li, env)
         return None
+
+    @staticmethod
+    def _own_break(body) -> bool:
+        for st in body:
+            if isinstance(st, ast.Break):
+                return True
+            if isinstance(st, (ast.For, ast.While)):
+                if Walker._own_break(st.orelse):
+                    return True
+                continue
+            for fld in ("body", "orelse", "finalbody"):
+                sub = getattr(st, fld, None)
+                if isinstance(sub, list) and sub and isinstance(sub[0], ast.stmt) and Walker._own_break(sub):
+                    return True
+            for h in getattr(st, "handlers", []) or []:
+                if Walker._own_break(h.body):
+                    return True
+        return False
+
+    def _loop_else(self, s, li, env) -> None:
+        """The `else` block of a loop runs only when the loop was not left by `break`: under a condition of its own, and what
+        it assigns is merged with what the variables held at the break."""
+        if not self._own_break(s.body):
+            self.block(s.orelse, env)  # no break: the block always runs
+            return
+        done = ("call", ("builtin", "<loop-completed>"), (("const", li.lid),), ())
+        before = dict(env)
+        self.guards.append((done, True))
+        self.guard_src.setdefault(done, (s.lineno, "else (of the loop)", self.fnstack[-1]))
+        try:
+            self.block(s.orelse, env)
+        finally:
+            self.guards.pop()
+        for n in list(env):
+            if env[n] != before.get(n, ("undef",)):
+                env[n] = ("sel", done, env[n], before.get(n, ("undef",)))
 
     def _merge_continues(self, env: Dict[str, Term], names: List[str]) -> None:
         """The value a variable carries into the next iteration: on a path that ended with `continue`
@@ -2209,7 +2245,7 @@ class Walker:
             env[n] = ("phi", li.lid, n)
         li.last_seq = self._seq
         if s.orelse:
-            self.block(s.orelse, env)
+            self._loop_else(s, li, env)
         return None
 
     # -- expressions -----------------------------------------------------------
